@@ -7,6 +7,7 @@ import (
 	"sync"
 	"sync/atomic"
 	"syscall"
+	"time"
 
 	"github.com/couchbase/moss"
 )
@@ -46,6 +47,9 @@ type FS struct {
 	counts   map[string]int
 	Fired    []FOp // injected failures that actually happened
 	phase    string
+	// SlowSiblings delays writes adjacent (by ordinal) to an injected
+	// write failure by this duration.
+	SlowSiblings time.Duration
 	ReadOnlyViolations []FOp // successful mutating ops (used by C18)
 }
 
@@ -192,8 +196,24 @@ func (s *SimFile) ReadAt(p []byte, off int64) (int, error) { return s.f.ReadAt(p
 func (s *SimFile) WriteAt(p []byte, off int64) (int, error) {
 	fs := s.fs
 	fs.mu.Lock()
+	ord := fs.counts["write"]
 	inj, mode := fs.begin("write")
+	slow := false
+	if !inj && fs.SlowSiblings > 0 {
+		// A write issued right next to one that is made to fail (moss writes
+		// the two arrays of a segment concurrently) is slowed down, like a
+		// slow device would: the failing write reports first and the
+		// persistence round may be retried while this one is still in flight.
+		for _, f := range fs.Faults {
+			if f.Kind == "write" && (ord+1 == f.Ordinal || (ord >= f.Ordinal+f.Count && ord-1 < f.Ordinal+f.Count)) {
+				slow = true
+			}
+		}
+	}
 	fs.mu.Unlock()
+	if slow {
+		time.Sleep(fs.SlowSiblings)
+	}
 	var n int
 	var err error
 	op := FOp{Kind: "write", Name: s.name, Off: off, Len: len(p)}
